@@ -10,6 +10,7 @@ from ._e3 import E3Check
 class C16(E3Check):
     prop = "C16"
     mix = "c16"
+    quick_min_runs = 5500
     required_probes = E3Check.required_probes + E3Check.C16_ONLY_PROBES
 
 
